@@ -89,6 +89,9 @@ cdef class QueryHandler:
     @cython.locals(question_lower_name=str, type_=cython.uint, service=ServiceInfo)
     cdef cython.dict _answer_question(self, DNSQuestion question, unsigned int strategy_type, list types, list services, DNSRRSet known_answers)
 
+    @cython.locals(question=DNSQuestion, known_answers_by_name=cython.dict, record=DNSRecord)
+    cpdef void async_remember_query(self, DNSIncoming msg, double now)
+
     @cython.locals(
         msg=DNSIncoming,
         msgs=list,
